@@ -1,3 +1,4 @@
+import JoblibModel.ExcTransport
 import JoblibProofs.Lemmas.ParallelProto
 import JoblibProofs.Lemmas.ParallelSeq
 import JoblibProofs.Lemmas.ParallelStartup
@@ -19,7 +20,14 @@ of failing tasks and of the failing iterator step, ALL configurations with `n_jo
 `pre_dispatch = 'all'` or ≥ 1, completions arriving at the hook points between two calls and inside
 `backend.abort_everything` (`between_calls_noop`, `abort_deliveries_are_noops`), all three `return_as` modes (except `timeout_raises`, stated for the ordered
 retrieval branch), all sequences of calls on one object (through `Idle`, which every call re-establishes). By
-invariants and induction, never by enumeration. Not covered: worker-side traceback capture.
+invariants and induction, never by enumeration.
+
+Worker-side traceback capture / EXCEPTION TRANSPORT of the pool backends (section "exception transport" at the end,
+model `JoblibModel.ExcTransport`): ALL outcomes of a submitted callable whose returned value is a list (what
+`BatchedCalls.__call__` returns), BOTH result channels (thread pool: identity; process pool: pickle round trip),
+ALL pickle behaviours satisfying "a round trip that succeeds preserves class and args" (`RoundTripLaw`), ALL
+exception classes / args / traceback strings. Not covered: loky's own executor-side capture (the loky backend does
+not use `_TracebackCapturingWrapper`; covered by native runs), the CONTENT of the formatted traceback string.
 
 Failures DURING THE START-UP of a call (F52; section "start-up failures" below, model
 `JoblibModel.ParallelStartup`): ALL fault placements (`len(iterable)`, `backend.configure`, `n_jobs == 0`,
@@ -558,4 +566,109 @@ example : runScenarioF (⟨2, false, [1], 0, 2, 0, -1, false, true⟩ : Cfg) fal
 
 end Startup
 
+/-! ## exception transport (worker-side traceback capture; model `JoblibModel.ExcTransport`)
+
+`Exc.task id` of the protocol model above is "the exception task `id` raised"; this section is about how that
+exception object gets from the worker to `retrieve_result_callback` in the pool backends
+(`_TracebackCapturingWrapper` → pool result channel → `_retrieve_traceback_capturing_wrapped_call`). Tied to the
+code by `harness/exc_transport.py` (a transcription of the model run against the real functions; see the header of
+the model file for why it is not a driver run). -/
+section ExcTransport
+open JoblibModel JoblibModel.ExcTransport
+-- `deliver` alone would be ambiguous with `ParallelProto.deliver` (opened above): written `ExcTransport.deliver`
+
+/-- TRANSPORT PRESERVES THE OUTCOME. For every outcome `o` of a submitted callable whose returned value (if it
+returns) is a list — `hlist`: true of every `BatchedCalls`, the only callables `Parallel` submits — every result
+channel `t` and every pickle behaviour `rt` satisfying `RoundTripLaw`:
+(1) a returned list arrives as that list;
+(2) a raised exception `e` arrives as a RAISED exception of the same class and args whose `__cause__` is the remote
+traceback `tb` formatted in the worker — or, only in the process pool and only when the instance cannot make the
+pickle round trip (`rt e = none`), as the separate outcome `transportError` (never as a returned value, never as an
+exception of another class);
+(3) the caller gets a return value only if the task returned it (a raise is never swallowed). -/
+theorem transport_preserves_outcome (t : Transport) (rt : ExcV → Option ExcV) (hlaw : RoundTripLaw rt)
+    (o : Outcome) (tb : Nat) (hlist : ∀ v, o = .returns v → ∃ xs, v = .list xs) :
+    (∀ xs, o = .returns (.list xs) → ExcTransport.deliver t rt o tb = .ret (.list xs)) ∧
+    (∀ e, o = .raises e →
+      (∃ e', ExcTransport.deliver t rt o tb = .raised e' ∧ e'.cls = e.cls ∧ e'.args = e.args ∧ e'.cause = some tb) ∨
+      (t = .process ∧ rt e = none ∧ ExcTransport.deliver t rt o tb = .transportError)) ∧
+    (∀ v, ExcTransport.deliver t rt o tb = .ret v → o = .returns v) := by
+  cases o with
+  | returns v =>
+    obtain ⟨xs, rfl⟩ := hlist v rfl
+    refine ⟨?_, ?_, ?_⟩
+    · intro ys h; cases h; cases t <;> rfl
+    · intro e h; cases h
+    · intro v h; cases t <;> simp [ExcTransport.deliver, wrap, transport, retrieve] at h <;> simp [h]
+  | raises e =>
+    refine ⟨?_, ?_, ?_⟩
+    · intro ys h; cases h
+    · intro e₁ h; cases h
+      cases t with
+      | thread => exact .inl ⟨rebuildExc e tb, rfl, rfl, rfl, rfl⟩
+      | process =>
+        cases hrt : rt e with
+        | none => exact .inr ⟨rfl, rfl, by simp [ExcTransport.deliver, wrap, transport, hrt]⟩
+        | some e' =>
+          obtain ⟨hc, ha⟩ := hlaw e e' hrt
+          exact .inl ⟨rebuildExc e' tb, by simp [ExcTransport.deliver, wrap, transport, hrt, retrieve], hc, ha, rfl⟩
+    · intro v h
+      cases t with
+      | thread => simp [ExcTransport.deliver, wrap, transport, retrieve] at h
+      | process =>
+        cases hrt : rt e <;> simp [ExcTransport.deliver, wrap, transport, hrt, retrieve] at h
+
+/-- In the thread pool nothing is pickled: the very instance the task raised is raised in the caller, with
+`__cause__` set to the remote traceback — whatever pickle would have done with it. -/
+theorem thread_transport_is_exact (rt : ExcV → Option ExcV) (e : ExcV) (tb : Nat) :
+    ExcTransport.deliver .thread rt (.raises e) tb = .raised { e with cause := some tb } := rfl
+
+/-- RAW POOL EXCEPTION. `PoolManagerMixin.submit` registers the completion callback as `error_callback` too; an
+exception instance the pool hands to it (a failure outside the task body: no `_ExceptionWithTraceback` around it)
+is raised by `retrieve_result_callback` as it is — it is not returned as a result. -/
+theorem raw_pool_exception_is_raised (e : ExcV) : retrieve (poolRaw e) = .raised e := rfl
+
+/-- HONEST WITNESS: the hypothesis `hlist` of `transport_preserves_outcome` cannot be dropped. A callable — not a
+`BatchedCalls` — that RETURNS an exception instance `ValueError(3)` has it RAISED in the caller
+(`if isinstance(out, BaseException): raise out` cannot tell it from the unpickled `_ExceptionWithTraceback`), and no
+channel and no pickle behaviour ever delivers a returned exception instance as a return value. Harmless in joblib:
+`BatchedCalls.__call__` returns a list, so a task function returning an exception instance yields a list holding it. -/
+theorem returned_exception_instance_is_raised_witness :
+    ExcTransport.deliver .thread rtGrid (.returns (.excInst ⟨1, [3], none⟩)) 5 = .raised ⟨1, [3], none⟩ ∧
+    (∀ (t : Transport) (rt : ExcV → Option ExcV) (e : ExcV) (tb : Nat),
+      ExcTransport.deliver t rt (.returns (.excInst e)) tb ≠ .ret (.excInst e)) := by
+  refine ⟨by decide, ?_⟩
+  intro t rt e tb h
+  cases t with
+  | thread => simp [ExcTransport.deliver, wrap, transport, retrieve] at h
+  | process => cases hrt : rt e <;> simp [ExcTransport.deliver, wrap, transport, hrt, retrieve] at h
+
+/-- the finite table of the model on the harness's grid; the literal rows below are READ by
+harness/exc_transport.py and compared with its Python transcription of `deliver`. -/
+theorem transport_table : table = [
+    ("thread", "returns-list", "ret-list"),
+    ("thread", "returns-exc", "raised"),
+    ("thread", "raises", "raised-with-remote-traceback"),
+    ("thread", "raises-unrebuildable", "raised-with-remote-traceback"),
+    ("thread", "returns-exc-unrebuildable", "raised"),
+    ("process", "returns-list", "ret-list"),
+    ("process", "returns-exc", "raised"),
+    ("process", "raises", "raised-with-remote-traceback"),
+    ("process", "raises-unrebuildable", "transport-error"),
+    ("process", "returns-exc-unrebuildable", "transport-error")] := by decide
+
+/-! the hypotheses are satisfiable by a non-trivial instance: `rtGrid` satisfies the law, is not the identity
+(it drops `__cause__`, as pickle does) and fails on one class -/
+
+example : RoundTripLaw rtGrid := by
+  intro e e' h
+  unfold rtGrid at h
+  split at h
+  · cases h
+  · cases h; exact ⟨rfl, rfl⟩
+
+example : ∃ e, rtGrid e ≠ some e ∧ (rtGrid e).isSome := ⟨⟨1, [3], some 4⟩, by decide⟩
+example : ExcTransport.deliver .process rtGrid (.raises ⟨1, [3], some 4⟩) 5 = .raised ⟨1, [3], some 5⟩ := by decide
+
+end ExcTransport
 end C04
